@@ -2359,3 +2359,68 @@ def after_none_oracle(case, trace):
 
 for _p in ("C02", "C10", "C01"):
     PROPS[_p]["oracles"] = list(PROPS[_p]["oracles"]) + [after_none_oracle]
+
+
+# ------------------------------------------------------------------ round 5, second part
+def trailing_while_cases(prefix):
+    """the LAST statement is a while whose condition draws: once the condition was 0 and next() returned None, nothing is
+    evaluated any more (no re-test of the condition, no draw, no row); and loops / whiles with an EMPTY body whose bound
+    or condition draws: the bound is evaluated (one draw) although there is nothing to repeat"""
+    sigs = [_sig("A", "I", 64), _sig("Q", "O", 4)]
+    cases = []
+    progs = [["1 X", "while(random(3)-1)", "2 X", "end while"],
+             ["let k = 0;", "while(random(4)>1)", "(k) X", "let k = k + 1;", "end while"],
+             ["loop(i,2)", "(i) X", "end loop", "while(random(3)-1)", "end while"],
+             ["(random(1099511627776)) X", "loop(i,random(7))", "end loop", "(random(1099511627776)) X", "resetRandom;", "(random(1099511627776)) X", "(random(1099511627776)) X", "(random(1099511627776)) X"],
+             ["(random(1099511627776)) X", "loop(i,random(5))", "# nothing", "", "end loop", "while(random(2)-1)", "end while", "(random(1099511627776)) X", "resetRandom;", "(random(1099511627776)) X"],
+             ["loop(i,3)", "loop(j,random(6))", "end loop", "(random(1000003)) X", "end loop"]]
+    for i, body in enumerate(progs):
+        for sd in range(6):
+            cases.append({"id": "%s-tw-%d-%d" % (prefix, i, sd), "kind": "run" if sd % 3 else "static", "src": "A Q\n" + "\n".join(body) + "\n", "sigs": [dict(s_) for s_ in sigs],
+                          "layout": [1], "table": [["1"]], "echo": 0, "wdefault": 0, "faults": [], "max": 200, "seed": 1000 + 17 * sd + i})
+    return cases
+
+
+for _p in ("C02", "C17", "C01"):
+    _extend(_p, (lambda pref: (lambda seed, tier: trailing_while_cases(pref)))(_p.lower()),
+            "plus programs that end in a while whose condition draws (nothing is evaluated after None) and empty-bodied loops whose bound draws")
+
+
+def c04_described_differently(seed, tier):
+    """the driver's FIRST answer describes a pin the program reads with another width: that is not the test's signal, so the
+    read output is missing and the constructor must refuse"""
+    out = []
+    rng = random.Random(seed ^ 0x0D1F)
+    for c in PROPS_C04_BASE(seed, "quick")[:400]:
+        if c.get("kind") != "run" or not c.get("layout"):
+            continue
+        if rng.random() < 0.25:
+            out.append(dict(c, id=c["id"] + "-wd0", faults=[(0, "widen %d" % rng.randrange(0, len(c["layout"])))]))
+    return out
+
+
+PROPS_C04_BASE = _c04b
+_extend("C04", c04_described_differently, "plus drivers whose first answer describes a read pin with another width")
+PROPS["C06"]["cases"] = static_twins(PROPS["C06"]["cases"], 4)
+if "STATIC" not in PROPS["C06"]["tags"]:
+    PROPS["C06"]["tags"] = tuple(PROPS["C06"]["tags"]) + ("STATIC", "SROW")
+
+
+def c10_almost_valid(seed, tier):
+    """programs that must be REJECTED (the grammar-breaking edits of C12), as whole runs: if one of them is accepted after all, it is run"""
+    rng = random.Random(seed ^ 0xA1A1)
+    out = []
+    n = 25 if tier == "quick" else 1500
+    for i in range(n):
+        c = gen.gen_run_case("c10-av-%d" % i, (seed * 7723 + i) & 0x7FFFFFFF, {"declare": 0.2, "maxdepth": 2, "budget": 10, "random": 0.2})
+        for j, (t, what) in enumerate(breaking_edits(rng, c["src"])):
+            if j % 4 == i % 4 or what.startswith(("wrong number", "unknown function", "malformed statement inside")):
+                out.append(dict(c, id="%s-e%d" % (c["id"], j), src=t))
+        # calls with too few / too many arguments in the positions where they would be evaluated
+        for k_, call in enumerate(["ite(1,2)", "ite(1,2,3,4)", "random()", "random(4,5)", "signExt(1)"]):
+            if (i + k_) % 5 == 0:
+                out.append(dict(c, id="%s-ar%d" % (c["id"], k_), src=c["src"].rstrip("\r\n") + "\nlet ar = %s;\nloop(zq,%s)\nend loop\n" % (call, call)))
+    return out
+
+
+_extend("C10", c10_almost_valid, "plus programs that must be rejected (C12's edits), run if they are accepted")
